@@ -72,7 +72,10 @@ def gen_case(rng: random.Random, *, kind=None, ndim=None, grouper=None, dimmode=
         dtypes = ["float64", "float64", "int64"]
     nanp = rng.choice([0.0, 0.15, 0.4])
 
-    grouper = grouper or rng.choice(["coord1d", "coord1d", "dimcoord", "coord2d", "ext1d", "ext2d", "two", "two", "bins1d", "bins1d", "bins2d", "nodimcoord"])
+    grouper = grouper or rng.choice(["coord1d", "coord1d", "dimcoord", "coord2d", "ext1d", "ext2d", "two", "two", "bins1d", "bins1d", "bins2d", "nodimcoord",
+                                     "coord3d", "coord3d", "ext3d"])
+    if grouper in ("coord3d", "ext3d") and ndim < 3:
+        grouper = "coord2d"         # (3-D groupers go beyond the property's quantifier; they exercise the same transposition code)
     if grouper in ("coord2d", "ext2d", "bins2d") and ndim < 2:
         grouper = "coord1d"
 
@@ -95,6 +98,11 @@ def gen_case(rng: random.Random, *, kind=None, ndim=None, grouper=None, dimmode=
         d = rng.choice(dims)
         vals = labels(sizes[d]) if grouper == "dimcoord" else list(range(sizes[d]))
         by.append(dict(name=d, src=grouper, dims=[d], vals=vals, bins=None, expected=None))
+    elif grouper in ("coord3d", "ext3d"):
+        dd = rng.sample(dims, 3)
+        n = sizes[dd[0]] * sizes[dd[1]] * sizes[dd[2]]
+        by.append(dict(name="lab", src="ext" if grouper == "ext3d" else "coord", dims=dd, vals=labels(n, floaty=True), bins=None,
+                       expected=None))
     elif grouper in ("coord2d", "ext2d", "bins2d"):
         dd = rng.sample(dims, 2)
         n = sizes[dd[0]] * sizes[dd[1]]
